@@ -3,9 +3,9 @@ package rules
 
 import (
 	"go/ast"
-	"strings"
 	"go/token"
 	"go/types"
+	"strings"
 
 	"yfverif/checker/internal/core"
 )
